@@ -6,6 +6,7 @@ package main
 import (
 	"fmt"
 	"go/ast"
+	"go/constant"
 	"go/types"
 	"net/textproto"
 	"strings"
@@ -134,6 +135,94 @@ func (fx *Fx) stdlibCall(st *State, fn *types.Func, recvExpr ast.Expr, call *ast
 			parts = append(parts, app("=", app("sat", s.X, fmt.Sprint(i)), fmt.Sprint((*p.Lit)[i])))
 		}
 		return boolV(and(parts...))
+	case "strings.HasSuffix", "strings.TrimSuffix", "strings.TrimPrefix":
+		sv, p := args[0], args[1]
+		if p.Lit == nil {
+			panic(unsupported(name + " with a non-literal affix"))
+		}
+		n := len(*p.Lit)
+		ln := app("slen", sv.X)
+		parts := []string{app(">=", ln, fmt.Sprint(n))}
+		for i := 0; i < n; i++ {
+			pos := fmt.Sprint(i)
+			if name != "strings.TrimPrefix" {
+				pos = app("+", app("-", ln, fmt.Sprint(n)), fmt.Sprint(i))
+			}
+			parts = append(parts, app("=", app("sat", sv.X, pos), fmt.Sprint((*p.Lit)[i])))
+		}
+		has := and(parts...)
+		switch name {
+		case "strings.HasSuffix":
+			return boolV(has)
+		case "strings.TrimSuffix":
+			return []Val{{T: types.Typ[types.String], S: SStr, X: app("ite", has, app("ssub", sv.X, "0", app("-", ln, fmt.Sprint(n))), sv.X)}}
+		}
+		return []Val{{T: types.Typ[types.String], S: SStr, X: app("ite", has, app("ssub", sv.X, fmt.Sprint(n), ln), sv.X)}}
+	case "strings.TrimRight", "strings.TrimLeft":
+		// cutset of ASCII bytes given as a literal: the longest run of cutset bytes at that end is removed
+		sv, p := args[0], args[1]
+		if p.Lit == nil || !isASCII(*p.Lit) {
+			panic(unsupported(name + " with a cutset that is not an ASCII literal"))
+		}
+		in := func(x string) string {
+			var alts []string
+			for i := 0; i < len(*p.Lit); i++ {
+				alts = append(alts, app("=", x, fmt.Sprint((*p.Lit)[i])))
+			}
+			if len(alts) == 0 {
+				return "false"
+			}
+			return or(alts...)
+		}
+		ln := app("slen", sv.X)
+		k := fx.d.freshConst("trimpos", SInt)
+		st.assume(and(app("<=", "0", k), app("<=", k, ln)))
+		if name == "strings.TrimRight" {
+			st.assume(implies(app(">", k, "0"), not(in(app("sat", sv.X, app("-", k, "1"))))))
+			st.assume(fmt.Sprintf("(forall ((i Int)) (! (=> (and (<= %s i) (< i %s)) %s) :pattern ((sat %s i))))", k, ln, in(app("sat", sv.X, "i")), sv.X))
+			return []Val{{T: types.Typ[types.String], S: SStr, X: app("ssub", sv.X, "0", k)}}
+		}
+		st.assume(implies(app("<", k, ln), not(in(app("sat", sv.X, k)))))
+		st.assume(fmt.Sprintf("(forall ((i Int)) (! (=> (and (<= 0 i) (< i %s)) %s) :pattern ((sat %s i))))", k, in(app("sat", sv.X, "i")), sv.X))
+		return []Val{{T: types.Typ[types.String], S: SStr, X: app("ssub", sv.X, k, ln)}}
+	case "strings.IndexAny", "strings.ContainsAny", "strings.ContainsRune", "strings.IndexRune":
+		// ASCII characters only: every byte of a multi-byte rune is >= 0x80, so bytes decide
+		sv, p := args[0], args[1]
+		var set []byte
+		if name == "strings.ContainsRune" || name == "strings.IndexRune" {
+			tv, ok := fx.pkg.info.Types[call.Args[1]]
+			if !ok || tv.Value == nil {
+				panic(unsupported(name + " with a non-constant rune"))
+			}
+			c, _ := constant.Int64Val(tv.Value)
+			if c < 0 || c >= 0x80 {
+				panic(unsupported(name + " with a non-ASCII rune"))
+			}
+			set = []byte{byte(c)}
+		} else {
+			if p.Lit == nil || !isASCII(*p.Lit) {
+				panic(unsupported(name + " with a character set that is not an ASCII literal"))
+			}
+			set = []byte(*p.Lit)
+		}
+		in := func(x string) string {
+			var alts []string
+			for _, c := range set {
+				alts = append(alts, app("=", x, fmt.Sprint(c)))
+			}
+			if len(alts) == 0 {
+				return "false"
+			}
+			return or(alts...)
+		}
+		r := fx.d.freshConst("indexany", SInt)
+		st.assume(and(app("<=", "(- 1)", r), app("<", r, app("slen", sv.X))))
+		st.assume(implies(app(">=", r, "0"), in(app("sat", sv.X, r))))
+		st.assume(fmt.Sprintf("(forall ((i Int)) (! (=> (and (<= 0 i) (< i (ite (>= %s 0) %s (slen %s)))) (not %s)) :pattern ((sat %s i))))", r, r, sv.X, in(app("sat", sv.X, "i")), sv.X))
+		if strings.HasPrefix(name, "strings.Contains") {
+			return boolV(app(">=", r, "0"))
+		}
+		return []Val{{T: types.Typ[types.Int], S: SInt, X: r}}
 	case "strconv.FormatUint":
 		return []Val{{T: types.Typ[types.String], S: SStr, X: app("fmtU", args[0].X)}}
 	case "strconv.ParseUint":
@@ -225,6 +314,15 @@ func isNonDigitPredicate(lit *ast.FuncLit) bool {
 }
 
 // indexByte: strings.IndexByte as an uninterpreted function whose defining facts are instantiated per use.
+func isASCII(s string) bool {
+	for i := 0; i < len(s); i++ {
+		if s[i] >= 0x80 {
+			return false
+		}
+	}
+	return true
+}
+
 func (fx *Fx) indexByte(st *State, s, c Val) Val {
 	f := fx.d.declareFun("indexbyte", []string{SStr, SInt}, SInt)
 	r := app(f, s.X, c.X)
@@ -278,9 +376,34 @@ func (fx *Fx) scannerMethod(st *State, name string, recv Val, args []Val, sig *t
 		fx.scannerStore(st, recv.X, app("mk_GScanner", done, err, tok, started, args[1].X))
 		return nil, true
 	case "(*bufio.Scanner).Split":
+		// ghost: which function was installed, and on which receiver (method value)
+		id, rv := "0", "nil"
+		if f := args[0].Fn; f != nil && f.Key != "" {
+			id = fmt.Sprint(fx.v.fnID(f.Key))
+			if f.Recv != nil {
+				rv = f.Recv.X
+			}
+		}
+		hf := fx.heapTerm(st, "ghost_scsplitfn", SInt)
+		st.heap["ghost_scsplitfn"] = app("store", hf, recv.X, id)
+		hr := fx.heapTerm(st, "ghost_scsplitrecv", SRef)
+		st.heap["ghost_scsplitrecv"] = app("store", hr, recv.X, rv)
 		return nil, true
 	}
 	return nil, false
+}
+
+// fnID numbers function keys (ghost identity of an installed function).
+func (v *Verifier) fnID(key string) int {
+	if v.fnIDs == nil {
+		v.fnIDs = map[string]int{}
+	}
+	if id, ok := v.fnIDs[key]; ok {
+		return id
+	}
+	id := len(v.fnIDs) + 1
+	v.fnIDs[key] = id
+	return id
 }
 
 func (fx *Fx) stdlibMethod(st *State, fn *types.Func, recv Val, args []Val) ([]Val, bool) {
